@@ -1,8 +1,10 @@
 package main
 
 import (
+	"context"
 	"errors"
 	"fmt"
+	"io"
 	"runtime"
 	"sort"
 	"strconv"
@@ -27,8 +29,21 @@ type scenario struct {
 	Deps   [][]int           // Deps[i] = indices i depends on; index N stands for a name that is not registered
 	Nil    [][3]bool         // Nil[i][k]: callback k (0 prep, 1 start, 2 stop) of module i is nil
 	Dur    [][3]int          // run time of callback k of module i in units of durUnit
-	Fail   map[string]string // "<m>.<k>.<run>" -> "e" (returns an error) | "p" (panics); run counts invocations from 0
-	Ops    []string          // S start, M manage, X shutdown, E<i> enable, D<i> disable, R late Register
+	Fail   map[string]string // "<m>.<k>.<run>" -> failure mode: "p" (panics) or an error-value class of errDict; run counts invocations from 0
+	//                          "G.p.<i>" / "G.c.<i>" -> error-value class returned by global prep function i / command-line operation i
+	Ops []string // S start, M manage, X shutdown, E<i> enable, D<i> disable, R late Register,
+	//              GP<i> SetGlobalPrepFn(fn i), GS<i> SetGlobalShutdownFn(fn i), GC<i> SetCmdLineOperation(fn i)
+}
+
+// usesGlobalFns: SetGlobalPrepFn / SetGlobalShutdownFn keep the first function for the life of the process (there
+// is no way to clear them), so a worker process that ran such a scenario is not reused.
+func (sc *scenario) usesGlobalFns() bool {
+	for _, op := range sc.Ops {
+		if strings.HasPrefix(op, "GP") || strings.HasPrefix(op, "GS") {
+			return true
+		}
+	}
+	return false
 }
 
 const durUnit = 40 * time.Microsecond
@@ -130,6 +145,9 @@ func parseScenario(line string) (*scenario, error) {
 			if j < 0 {
 				return nil, fmt.Errorf("bad fail")
 			}
+			if mode := x[j+1:]; (mode != "p" || strings.HasPrefix(x, "G.")) && errDict[mode] == nil {
+				return nil, fmt.Errorf("bad failure mode")
+			}
 			sc.Fail[x[:j]] = x[j+1:]
 		}
 	}
@@ -186,15 +204,121 @@ func (w *world) cb(m, k int) func() error {
 			runtime.Gosched()
 		}
 		mode := w.sc.Fail[fmt.Sprintf("%d.%s.%d", m, kindLetter[k], run)]
-		switch mode {
-		case "e":
-			w.rec(fmt.Sprintf("end %s %d err", kindName[k], m))
-			return errors.New("planned failure")
-		case "p":
+		if mode == "p" {
 			w.rec(fmt.Sprintf("end %s %d panic", kindName[k], m))
 			panic("planned panic")
 		}
+		if mk := errDict[mode]; mk != nil {
+			// the history records what the callback really returns (harness ground truth): a non-nil error value
+			if err := mk(); err != nil {
+				w.rec(fmt.Sprintf("end %s %d err", kindName[k], m))
+				return err
+			}
+		}
 		w.rec(fmt.Sprintf("end %s %d ok", kindName[k], m))
+		return nil
+	}
+}
+
+// ---------------------------------------------------------------------------------------------
+// The error-value dictionary: WHAT a failing callback returns. The property speaks of routines that
+// "return an error"; every non-nil error value is a failure, whatever it is, wraps or claims to be.
+// The values below are the ones package modules (and its callers) compare errors with somewhere —
+// context.Canceled (worker handling), context.DeadlineExceeded, ErrCleanExit (Start), ErrRestartNow
+// (service workers), *ModuleError (IsPanic) — bare, wrapped with %w, joined, wrapped twice, plus values
+// that answer every errors.Is question with yes, a typed nil pointer in the error interface (non-nil
+// for Go: a failure), an error with an empty message, and a foreign sentinel (io.EOF).
+
+// anyIsErr claims to be every error: errors.Is(anyIsErr{}, target) is true for every target.
+type anyIsErr struct{}
+
+func (anyIsErr) Error() string        { return "planned failure that matches every sentinel" }
+func (anyIsErr) Is(target error) bool { return true }
+
+// nilPtrErr is used as a typed nil pointer: `var p *nilPtrErr; return p` is a NON-nil error value.
+type nilPtrErr struct{ msg string }
+
+func (e *nilPtrErr) Error() string {
+	if e == nil {
+		return "planned failure (typed nil pointer)"
+	}
+	return e.msg
+}
+
+type emptyMsgErr struct{}
+
+func (emptyMsgErr) Error() string { return "" }
+
+// timeoutErr looks like a net.Error that timed out and unwraps to context.DeadlineExceeded.
+type timeoutErr struct{}
+
+func (timeoutErr) Error() string   { return "planned i/o timeout" }
+func (timeoutErr) Timeout() bool   { return true }
+func (timeoutErr) Temporary() bool { return true }
+func (timeoutErr) Unwrap() error   { return context.DeadlineExceeded }
+
+var errDict = map[string]func() error{
+	"e":  func() error { return errors.New("planned failure") },
+	"c":  func() error { return fmt.Errorf("planned failure: %w", context.Canceled) },
+	"C":  func() error { return context.Canceled },
+	"cc": func() error { return fmt.Errorf("outer: %w", fmt.Errorf("inner: %w", context.Canceled)) },
+	"cx": func() error { // the error of a context that really was cancelled
+		ctx, cancel := context.WithCancel(context.Background())
+		cancel()
+		return fmt.Errorf("planned failure: %w", ctx.Err())
+	},
+	"cj": func() error { return errors.Join(errors.New("planned failure"), context.Canceled) },
+	"cu": func() error { return context.Cause(canceledWithCause) }, // a cancellation cause: not Canceled itself
+	"d":  func() error { return fmt.Errorf("planned failure: %w", context.DeadlineExceeded) },
+	"D":  func() error { return context.DeadlineExceeded },
+	"dt": func() error { return timeoutErr{} },
+	"x":  func() error { return fmt.Errorf("planned failure: %w", modules.ErrCleanExit) },
+	"X":  func() error { return modules.ErrCleanExit },
+	"r":  func() error { return fmt.Errorf("planned failure: %w", modules.ErrRestartNow) },
+	"R":  func() error { return modules.ErrRestartNow },
+	"m":  func() error { return &modules.ModuleError{Message: "planned failure", Severity: "error"} },
+	"mp": func() error { // looks like a recovered panic
+		return &modules.ModuleError{Message: "panic: planned failure", Severity: "panic", PanicValue: "planned failure", TaskType: "worker"}
+	},
+	"mw": func() error { return fmt.Errorf("planned failure: %w", &modules.ModuleError{Message: "inner"}) },
+	"a":  func() error { return anyIsErr{} },
+	"aw": func() error { return fmt.Errorf("planned failure: %w", anyIsErr{}) },
+	"n":  func() error { var p *nilPtrErr; return p },
+	"z":  func() error { return emptyMsgErr{} },
+	"f":  func() error { return io.EOF },
+	"j":  func() error { return errors.Join(modules.ErrCleanExit, context.Canceled, modules.ErrRestartNow) },
+}
+
+var canceledWithCause = func() context.Context {
+	ctx, cancel := context.WithCancelCause(context.Background())
+	cancel(errors.New("planned failure (cancellation cause)"))
+	return ctx
+}()
+
+// errClasses lists the dictionary keys in a fixed order (for the generator).
+var errClasses = func() []string {
+	ks := make([]string, 0, len(errDict))
+	for k := range errDict {
+		ks = append(ks, k)
+	}
+	sort.Strings(ks)
+	return ks
+}()
+
+// globalFn is global prep function / global shutdown function / command-line operation number id: it records
+// that it ran and what it returned (`glob <which> <id> ok|err`).
+func (w *world) globalFn(which, failKey string, id int) func() error {
+	return func() error {
+		runtime.Gosched()
+		if failKey != "" {
+			if mk := errDict[w.sc.Fail[fmt.Sprintf("%s.%d", failKey, id)]]; mk != nil {
+				if err := mk(); err != nil {
+					w.rec(fmt.Sprintf("glob %s %d err", which, id))
+					return err
+				}
+			}
+		}
+		w.rec(fmt.Sprintf("glob %s %d ok", which, id))
 		return nil
 	}
 }
@@ -217,6 +341,7 @@ func runScenario(sc *scenario) []string {
 		modules.SetStdErrReporting(false)
 	})
 	modules.VerifResetLifecycle()
+	modules.SetCmdLineOperation(nil)
 	w := &world{sc: sc, runs: make([][3]int, sc.N)}
 	if sc.Mgmt {
 		var fn func(*modules.Module)
@@ -271,6 +396,24 @@ func runScenario(sc *scenario) []string {
 			w.rec("ret shutdown " + resStr(err))
 			obs("obs")
 			shutdownCalled = true
+		case len(op) > 2 && op[0] == 'G' && (op[1] == 'P' || op[1] == 'S' || op[1] == 'C'):
+			id, err := strconv.Atoi(op[2:])
+			if err != nil || id < 0 || id > 9 {
+				w.rec("bad-scenario-op " + op)
+				continue
+			}
+			switch op[1] {
+			case 'P':
+				w.rec(fmt.Sprintf("setg prep %d", id))
+				modules.SetGlobalPrepFn(w.globalFn("prep", "G.p", id))
+			case 'S':
+				w.rec(fmt.Sprintf("setg shutdown %d", id))
+				fn := w.globalFn("shutdown", "", id)
+				modules.SetGlobalShutdownFn(func() { _ = fn() })
+			case 'C':
+				w.rec(fmt.Sprintf("setg cmd %d", id))
+				modules.SetCmdLineOperation(w.globalFn("cmd", "G.c", id))
+			}
 		case op == "R":
 			m := modules.Register("late", nil, nil, nil)
 			if m == nil {
